@@ -29,6 +29,11 @@ Definition cvec_cmp (tol : option Q) (a b : cvec) : bool :=
 Definition expr_case_ok (c : nat * option Q * c_mexpr * cmat) : bool :=
   let '(n, tol, e, R) := c in cmat_cmp tol (fst (c_mden2 n e)) R.
 
+(** forward and adjoint closures: result matrix and matrix of result.adj *)
+Definition expr_case_ok2 (c : nat * option Q * c_mexpr * cmat * cmat) : bool :=
+  let '(n, tol, e, R, Radj) := c in
+  cmat_cmp tol (fst (c_mden2 n e)) R && cmat_cmp tol (snd (c_mden2 n e)) Radj.
+
 (** ** stacking operators as block matrices *)
 Definition c_zeros (n : nat) : cvec := repeat c0 n.
 Definition vstack (Ms : list cmat) : cmat := concat Ms.
